@@ -191,6 +191,12 @@ impl Prop for C10 {
         let mut p = CallSetParams::standard(if big { 40 } else { 12 }, if l2 { 12 } else if big { 3000 } else { 40 });
         p.allow_strict = false;
         p.allow_no_gt = true;
+        // one case in 12: a large cohort (the projection's tables and counters leave their
+        // small-data range), few records
+        if idx % 12 == 7 && !l2 {
+            p.big_cohort = true;
+            p.max_recs = 12;
+        }
         let (mut callset, mut cfg) = gen::gen_callset(&mut rng, &p);
         if callset.recs.is_empty() {
             let s = callset.samples.clone();
